@@ -1,0 +1,19 @@
+package code
+
+// A LimitError is the value functions in this package panic with when they are
+// asked to encode something that does not fit in the bytecode format (e.g. a
+// constant index or a jump offset that is too big).  This is not a bug in the
+// caller but a limit of the implementation that a legal program can exceed, so
+// a compiler using this package should recover from a panic with a *LimitError
+// and report it as a compilation error.
+type LimitError struct {
+	Message string
+}
+
+func (e *LimitError) Error() string {
+	return e.Message
+}
+
+func newLimitError(msg string) *LimitError {
+	return &LimitError{Message: msg}
+}
